@@ -22,17 +22,17 @@ theorem decrementKey_frame {s s2 : QState} {key : Nat} (h : decrementKey s key =
 
 
 /-- the `Info` record `next_trial` logs -/
-def mkInfo (s : QState) (key : Nat) (e : Entry) : Info :=
-  { uid := s.added.length, key := key, k := s.samples, dur := e.dur }
+def mkInfo (s : QState) (key : Nat) (e : Entry) (d : Int) : Info :=
+  { uid := s.added.length, key := key, k := s.samples, dur := e.dur, len := e.len, delay := d }
 
 theorem nextTrial_some {s s' : QState} (h : nextTrial s = .ok (some s')) :
     ∃ key s1 s2 e d, nextKey s = .ok (some (key, s1)) ∧ decrementKey s1 key = .ok s2 ∧
-      s2.data[key]? = some e ∧ 0 ≤ d ∧
+      s2.data[key]? = some e ∧ 0 ≤ d ∧ e.delays[e.dpos % e.delays.length]? = some d ∧
       s' = { s2 with data := s2.data.modify key (fun e => { e with dpos := e.dpos + 1 }),
                      source := some { key := key, off := 0, len := e.len, gen := e.gen },
                      delaySamples := d,
-                     generated := s2.generated ++ [mkInfo s2 key e],
-                     added := s2.added ++ [mkInfo s2 key e] } := by
+                     generated := s2.generated ++ [mkInfo s2 key e d],
+                     added := s2.added ++ [mkInfo s2 key e d] } := by
   unfold nextTrial at h
   split at h
   · simp at h
@@ -55,7 +55,7 @@ theorem nextTrial_some {s s' : QState} (h : nextTrial s = .ok (some s')) :
               · simp at h
               · rename_i hneg
                 simp only [Except.ok.injEq, Option.some.injEq] at h
-                exact ⟨key, s1, s2, e, d, hk, hd, he, by omega, h.symm⟩
+                exact ⟨key, s1, s2, e, d, hk, hd, he, by omega, hdl, h.symm⟩
 
 theorem nextTrial_none {s : QState} (h : nextTrial s = .ok none) : nextKey s = .ok none := by
   unfold nextTrial at h
@@ -64,5 +64,19 @@ theorem nextTrial_none {s : QState} (h : nextTrial s = .ok none) : nextKey s = .
 
 theorem nextTrial_none_of {s : QState} (h : nextKey s = .ok none) : nextTrial s = .ok none := by
   unfold nextTrial; rw [h]
+
+
+/-- everything an observer needs to know about a successful `next_trial` -/
+theorem nextTrial_obs {s s1 : QState} (h : nextTrial s = .ok (some s1)) :
+    ∃ info : Info, ∃ g : Bool, s1.added = s.added ++ [info] ∧ s1.generated = s.generated ++ [info] ∧
+      info.k = s.samples ∧ info.uid = s.added.length ∧
+      s1.source = some { key := info.key, off := 0, len := info.len, gen := g } ∧
+      s1.delaySamples = info.delay ∧ 0 ≤ info.delay ∧ s1.samples = s.samples ∧
+      s1.paused = s.paused ∧ s1.empty = s.empty ∧ s1.removed = s.removed ∧ s1.kind = s.kind := by
+  obtain ⟨key, sa, sb, e, d, hk, hd, he, hd0, _, rfl⟩ := nextTrial_some h
+  have f1 := nextKey_frame hk
+  have f2 := decrementKey_frame hd
+  refine ⟨mkInfo sb key e d, e.gen, ?_, ?_, ?_, ?_, rfl, rfl, hd0, ?_, ?_, ?_, ?_, ?_⟩ <;>
+    simp only [mkInfo] <;> rw [f2] <;> simp only <;> rw [f1]
 
 end Psi.Queue
